@@ -723,6 +723,8 @@ def extract_animation_properties(
 
     if max_pl <= maxpos:
         path_indices = np.arange(max_pl)
+    elif maxpos <= 1:
+        path_indices = np.array([max_pl - 1])  # a single frame: the last path position
     else:
         round_step = max_pl / (maxpos - 1)
         ar = np.linspace(0, max_pl, max_pl, endpoint=False)
